@@ -237,7 +237,10 @@ static void caseC16(uint64_t, vh::Rng& g)
 		R->desc(d + " out=" + vh::str(out)); R->phase("computeSimulation(outputSize)");
 		try
 		{
-			Util::BinaryRelation rel = (out == n && g.chance(1, 2)) ? lts.computeSimulation() : lts.computeSimulation(out);
+			// read from a fresh object or from one object of the process that is assigned every new relation (lesson of m103)
+			static Util::BinaryRelation carriedRel; Util::BinaryRelation freshRel; bool reuseRel = g.chance(1, 2); if (reuseRel) R->count("relation-object-reassigned");
+			Util::BinaryRelation& rel = reuseRel ? carriedRel : freshRel;
+			if (out == n && g.chance(1, 2)) rel = lts.computeSimulation(); else { Util::BinaryRelation t = lts.computeSimulation(out); if (g.chance(1, 2)) rel = t; else rel = std::move(t); }
 			R->count("plain-runs");
 			if (rel.size() != static_cast<size_t>(out)) R->violation("C16/plain/output-size", "size " + vh::str(rel.size()) + " requested " + vh::str(out));
 			else
@@ -271,7 +274,9 @@ static void caseC16(uint64_t, vh::Rng& g)
 		R->desc(pd.str()); R->phase("computeSimulation(partition,relation,outputSize)");
 		try
 		{
-			Util::BinaryRelation rel = lts.computeSimulation(part, br, out);
+			static Util::BinaryRelation carriedRel2; Util::BinaryRelation freshRel2; bool reuseRel2 = g.chance(1, 2); if (reuseRel2) R->count("relation-object-reassigned");
+			Util::BinaryRelation& rel = reuseRel2 ? carriedRel2 : freshRel2;
+			rel = lts.computeSimulation(part, br, out);
 			R->count("partition-runs");
 			if (rel.size() != static_cast<size_t>(out)) R->violation("C16/partition/output-size", "size " + vh::str(rel.size()) + " requested " + vh::str(out));
 			else
